@@ -70,13 +70,13 @@ def key_fn(case, ob, step, clause):
     op = case["ops"][step]
     key = "%s/%s/%s" % (CLAUSE.get(clause, clause), case["kind"] if case["kind"] == "event" else case["mode"], op[0])
     if case.get("orig") and case["kind"] == "normal" and clause == 2 and op[0] == "Assign":
-        # shape of F-C02-orig: a trait that stores the original object, the stored object assigned again, handlers called with
+        # shape of F22 (repaired in /repo by 3fe28c1; the key stays so that its reversal is named): a trait that stores the original object, the stored object assigned again, handlers called with
         # old is new
         st = ob["steps"][step]
         if st["calls"] and all(c[1] == c[2] == st["slot"] for c in st["calls"]):
             key += "/stores-original-value/identical-object-again"
     if case.get("orig") and case["kind"] == "normal" and clause == 4 and op[0] == "Assign":
-        # second shape of F-C02-orig: the VALIDATED value is the stored object (or the not yet materialised default), the
+        # second shape of F22: the VALIDATED value is the stored object (or the not yet materialised default), the
         # assigned (and then stored) object is another
         prev = ob["steps"][step - 1]["slot"] if step > 0 else None
         if prev is None:
@@ -170,7 +170,7 @@ def corpus():
                        ops=[["Assign", 1], ["Assign", 0], ["Read"]]))
         cs.append(dict(kind=kind, mode=mode, default=3, statics=["changed"], dyn=[], raises=[],
                        ops=[["Assign", 3], ["Assign", 4], ["Assign", 3]]))
-    # traits that store the ORIGINAL value (Expression / AdaptsTo style): trigger of F-C02-orig and of its repair
+    # traits that store the ORIGINAL value (Expression / AdaptsTo style): trigger of F22 (repaired) so that a reversal is detected
     for mode in ("none", "identity", "equality"):
         cs.append(dict(kind="normal", mode=mode, default=6, statics=["changed"], dyn=["obs", "otc"], raises=[], orig=True,
                        ops=[["Assign", 10], ["Assign", 10], ["Assign", 0], ["Assign", 10], ["Assign", 1], ["Assign", 1], ["Read"],
